@@ -703,5 +703,68 @@ func ruleRowCache(p *Prog, r *Result) {
 		})
 	}
 	r.floor("field evaluations of completed groups", nGroupEval, 2)
+	// an alias reference always memoises: evaluated without a context (the library does that itself: arguments
+	// evaluated row by row inside a batch, the filter below an aggregate) a reference would recompute the field it
+	// stands for, and a chain of fields that each use the previous one twice costs 2^n evaluations. The context the
+	// reference hands down to the aliased expression is therefore never nil
+	if fre := p.MethodByName("FieldReferenceExpr", "Execute"); fre != nil {
+		var nonNil func(v ssa.Value, at *ssa.BasicBlock, d int) bool
+		nonNil = func(v ssa.Value, at *ssa.BasicBlock, d int) bool {
+			if d > 4 {
+				return false
+			}
+			switch x := v.(type) {
+			case *ssa.Call:
+				if g := x.Call.StaticCallee(); g != nil && g.Name() == "NewExecuteCtx" {
+					return true
+				}
+			case *ssa.Alloc:
+				return true
+			case *ssa.Phi:
+				for i, e := range x.Edges {
+					pr := x.Block().Preds[i]
+					if isNilConst(e) {
+						return false
+					}
+					okEdge := nonNil(e, pr, d+1)
+					if !okEdge {
+						for _, a := range edgeAtoms(pr, x.Block()) {
+							if a.Op == token.NEQ && a.X == e && isNilConst(a.Y) {
+								okEdge = true
+							}
+						}
+					}
+					if !okEdge {
+						return false
+					}
+				}
+				return true
+			}
+			for _, a := range dominatingAtoms(at) {
+				if a.Op == token.NEQ && a.X == v && isNilConst(a.Y) {
+					return true
+				}
+			}
+			return false
+		}
+		found := 0
+		allInstrs(fre, func(in ssa.Instruction) {
+			c, ok := in.(*ssa.Call)
+			if !ok || !c.Call.IsInvoke() || c.Call.Method.Name() != "Execute" || !p.derivesFromField(c.Call.Value, "FieldReferenceExpr", "FieldExpr", traceOpts{}) {
+				return
+			}
+			found++
+			var ctx ssa.Value
+			for _, a := range c.Call.Args {
+				if isCtx(a) {
+					ctx = a
+				}
+			}
+			r.add(ctx != nil && nonNil(ctx, in.Block(), 0), "(*FieldReferenceExpr).Execute|memo-context", p.InstrPos(in), "the aliased expression is evaluated with a context (the caller's, or one made for this evaluation when there is none), so nested references are computed once")
+		})
+		if found == 0 {
+			r.undecided("anchor: the evaluation of FieldExpr in (*FieldReferenceExpr).Execute was not found")
+		}
+	}
 	r.floor("calls handing loop-variant rows and a context to cache-touching code", nCalls, 4)
 }
